@@ -36,6 +36,7 @@ type vf14Case struct {
 	DsdtBoth    bool  `json:"dsdt_both_pointers"`
 	RealWindow  bool  `json:"real_window"` // the BIOS area 0xe0000-0xfffff itself
 	NoPointer   bool  `json:"no_valid_pointer"`
+	DecoyExt    bool  `json:"decoy_corrupt_in_extended_part"` // revision>=2: the bad-checksum structures are corrupted in bytes 20..35 only (their first 20 bytes still sum to zero)
 }
 
 var vf14Sigs = []string{"APIC", "HPET", "SSDT", "FACP"}
@@ -164,7 +165,11 @@ func (e *vf14Env) run(run *verifrt.Run, c vf14Case) {
 			b[8] = -vfCsum(b[:20])
 		}
 		if !good {
-			b[9] ^= 0x40
+			if c.DecoyExt && c.Rev != 0 {
+				b[33] ^= 0x40 // reserved byte of the extended part: the 20-byte checksum stays valid, the extended one does not
+			} else {
+				b[9] ^= 0x40
+			}
 		}
 	}
 	const need = 3 // slots one pointer structure occupies
@@ -330,6 +335,15 @@ func TestVerifC14(t *testing.T) {
 				}
 				// only decoys / a corrupted pointer: nothing may be accepted
 				env.run(run, vf14Case{Rev: rev, Slot: slot, Decoy: decoy, NoPointer: true})
+				if rev != 0 {
+					// structures whose corruption is confined to the extended part
+					env.run(run, vf14Case{Rev: rev, Slot: slot, Decoy: decoy, NoPointer: true, DecoyExt: true})
+					for _, ord := range orders {
+						if len(ord) <= 2 {
+							env.run(run, vf14Case{Rev: rev, Slot: slot, Decoy: decoy, Order: ord, Corrupt: 1 & (1<<uint(len(ord)) - 1), DecoyExt: true})
+						}
+					}
+				}
 			}
 		}
 	}
@@ -349,6 +363,6 @@ func TestVerifC14(t *testing.T) {
 		}
 		run.Count("real_window_cases", 40)
 	}
-	run.Finish(true, "2 revisions x every admissible 16-byte slot of a 12-slot search window x 4 decoy layouts x every order of <=3 (thorough: 4) of {APIC,HPET,SSDT,FACP} x every corruption subset x DSDT {valid,corrupt} x {one, both} DSDT pointers; root pointer with a bad checksum only; first/last admissible slots of the real BIOS area 0xe0000-0xfffff",
+	run.Finish(true, "2 revisions x every admissible 16-byte slot of a 12-slot search window x 4 decoy layouts x every order of <=3 (thorough: 4) of {APIC,HPET,SSDT,FACP} x every corruption subset x DSDT {valid,corrupt} x {one, both} DSDT pointers; root pointer with a bad checksum only; bad-checksum structures corrupted in the first 20 bytes or (revision 2) in the extended part only; first/last admissible slots of the real BIOS area 0xe0000-0xfffff",
 		"distinct = (revision, table count, corruption mask, DSDT state)")
 }
